@@ -155,10 +155,9 @@ def ownStores (j : Nat) : List Action → List (Nat × Key × Val)
   | .store j' i k v :: rest => if j' = j then (i, k, v) :: ownStores j rest else ownStores j rest
   | .clone :: rest => ownStores j rest
 
-def applyOwn (tbl : List CloneKind) (f : Nat → Key → Val) : List (Nat × Key × Val) → (Nat → Key → Val)
+def applyOwn (f : Nat → Key → Val) : List (Nat × Key × Val) → (Nat → Key → Val)
   | [] => f
-  | (i, k, v) :: rest =>
-    applyOwn tbl (if i < tbl.length then (fun i' k' => if i' = i ∧ k' = k then v else f i' k') else f) rest
+  | (i, k, v) :: rest => applyOwn (fun i' k' => if i' = i ∧ k' = k then v else f i' k') rest
 
 /-! ### judgement of one regenerated write site -/
 
